@@ -969,6 +969,11 @@ var stmtTemplates = []string{
 	`SELECT * INTO out FROM db0..cpu`,
 	`SELECT mean(v) INTO db0.autogen.out FROM db1..cpu GROUP BY time(1m)`,
 	`SELECT v FROM /c.*/`,
+	`SELECT * FROM db1..mem, cpu`,
+	`SELECT * FROM db1..mem, cpu, db0..disk`,
+	`SELECT * FROM (SELECT v FROM db1..cpu), mem`,
+	`SELECT * INTO out FROM db1..cpu, mem`,
+	`SELECT * INTO db1..out FROM cpu`,
 	`EXPLAIN SELECT * FROM cpu`,
 	`EXPLAIN ANALYZE SELECT * FROM db1..cpu`,
 	`DELETE FROM cpu`,
@@ -1222,6 +1227,169 @@ func genReqCase(r *hx.Rand) reqCaseD {
 		d.Reqs = append(d.Reqs, rq)
 	}
 	return d
+}
+
+// ---- requests MIXING privileges that name a database with privileges that fall back to the
+// request's default database, in every order.  %s = a database the user holds a grant on.
+var explicitElems = []string{
+	`SELECT * FROM %s..cpu`,
+	`SELECT * FROM %s.autogen.cpu`,
+	`SHOW TAG KEYS ON %s`,
+	`SHOW SERIES ON %s`,
+	`SHOW MEASUREMENTS ON %s`,
+	`SHOW FIELD KEYS ON %s`,
+	`SHOW RETENTION POLICIES ON %s`,
+	`SHOW TAG VALUES ON %s WITH KEY = host`,
+	`SHOW SERIES EXACT CARDINALITY ON %s`,
+	`DROP CONTINUOUS QUERY cq ON %s`,
+	`DROP RETENTION POLICY rp ON %s`,
+	`SELECT * INTO %[1]s..out FROM %[1]s..cpu`,
+	`EXPLAIN SELECT * FROM %s..cpu`,
+}
+var defaultElems = []string{
+	`SELECT * FROM cpu`,
+	`SHOW SERIES`,
+	`SHOW TAG KEYS`,
+	`SHOW MEASUREMENTS`,
+	`SHOW FIELD KEYS`,
+	`SHOW RETENTION POLICIES`,
+	`SHOW QUERIES`,
+	`SHOW CONTINUOUS QUERIES`,
+	`DELETE FROM cpu`,
+	`DROP SERIES FROM cpu`,
+	`SELECT * INTO out FROM cpu`,
+	`EXPLAIN SELECT * FROM cpu`,
+	`SHOW SERIES EXACT CARDINALITY FROM cpu`,
+}
+
+// one SELECT whose sources (and optional INTO target) mix the two kinds in the given order
+func mixedSelect(r *hx.Rand, g string) string {
+	n := 2 + r.Intn(3)
+	srcs := []string{}
+	for i := 0; i < n; i++ {
+		switch r.Intn(4) {
+		case 0:
+			srcs = append(srcs, fmt.Sprintf("%s..m%d", g, i))
+		case 1:
+			srcs = append(srcs, fmt.Sprintf("m%d", i))
+		case 2:
+			srcs = append(srcs, fmt.Sprintf("(SELECT v FROM %s..s%d)", g, i))
+		default:
+			srcs = append(srcs, fmt.Sprintf("(SELECT v FROM s%d)", i))
+		}
+	}
+	into := ""
+	switch r.Intn(5) {
+	case 0:
+		into = " INTO out"
+	case 1:
+		into = fmt.Sprintf(" INTO %s..out", g)
+	}
+	return "SELECT *" + into + " FROM " + strings.Join(srcs, ", ")
+}
+
+type mixedD struct {
+	Users []UserD
+	User  UserD
+	PW    string
+	Q     string
+	DB    string
+}
+
+func genMixed(r *hx.Rand) mixedD {
+	gi := r.Intn(len(dbNames))
+	g := dbNames[gi]
+	// the request's default database: one the user holds no (or a useless) grant on
+	def := []string{dbNames[(gi+1+r.Intn(len(dbNames)-1))%len(dbNames)], "", "nosuchdb"}[r.Intn(3)]
+	if r.Chance(60) {
+		def = dbNames[(gi+1+r.Intn(len(dbNames)-1))%len(dbNames)]
+	}
+	privs := map[string]int{g: 1 + r.Intn(3)}
+	if r.Chance(25) && def != "" {
+		privs[def] = []int{0, 1, 2}[r.Intn(3)] // sometimes a partial grant on the default as well
+	}
+	if r.Chance(15) {
+		other := dbNames[(gi+2)%len(dbNames)]
+		if other != def {
+			privs[other] = 1 + r.Intn(3)
+		}
+	}
+	hid := 2 * r.Intn(len(passwords))
+	pw, _ := pwOf(hid)
+	if pw == "" {
+		hid, pw = 0, passwords[0]
+	}
+	u := UserD{Name: "mix", Hash: hid, Privs: privs}
+	n := 2 + r.Intn(3)
+	parts := []string{}
+	for i := 0; i < n; i++ {
+		switch r.Intn(5) {
+		case 0, 1:
+			parts = append(parts, fmt.Sprintf(explicitElems[r.Intn(len(explicitElems))], g))
+		case 2, 3:
+			parts = append(parts, defaultElems[r.Intn(len(defaultElems))])
+		default:
+			parts = append(parts, mixedSelect(r, g))
+		}
+	}
+	if r.Chance(25) {
+		parts = []string{mixedSelect(r, g)}
+	}
+	return mixedD{Users: []UserD{{Name: "root", Hash: 0, Admin: true}, u}, User: u, PW: pw, Q: strings.Join(parts, "; "), DB: def}
+}
+
+func runMixed(e *env, o *hx.Out, m mixedD, origin string, viaHTTP bool) {
+	o.Count("mixed:explicit+default-request")
+	if !viaHTTP {
+		u := m.User
+		runAuthz(e, o, authzD{Users: m.Users, User: &u, Q: m.Q, DB: m.DB}, origin)
+		return
+	}
+	cr := CredD{Hdr: "basic", Raw: m.User.Name + ":" + m.PW}
+	runReqCase(e, o, reqCaseD{Users: m.Users, DBs: dbNames, Secret: true,
+		Reqs: []ReqD{{Kind: "query", Method: "POST", Q: m.Q, HasQ: true, DB: m.DB, Cred: cr}}}, origin)
+}
+
+// every ordered pair / sandwich of (element naming a granted database, element using the
+// default database) for a user who holds READ, WRITE or ALL on db1 only; default = db0, "", unknown
+func designedMixed(e *env, o *hx.Out) {
+	g := "db1"
+	k := 0
+	for _, priv := range []int{1, 2, 3} {
+		u := UserD{Name: "mix", Hash: 2, Privs: map[string]int{g: priv}}
+		users := []UserD{{Name: "root", Hash: 0, Admin: true}, u}
+		for ei, et := range explicitElems {
+			ex := fmt.Sprintf(et, g)
+			for di, de := range defaultElems {
+				if (ei+di+priv)%3 != 0 { // a third of the grid per privilege level: the whole grid over the three levels
+					continue
+				}
+				def := []string{"db0", "db0", "", "nosuchdb"}[k%4]
+				k++
+				forms := []string{ex + "; " + de, de + "; " + ex}
+				if k%2 == 0 {
+					forms = []string{ex + "; " + de, de + "; " + ex + "; " + de}
+				} else if k%3 == 0 {
+					forms = []string{ex + "; " + ex + "; " + de, de + "; " + ex}
+				}
+				for _, q := range forms {
+					runMixed(e, o, mixedD{Users: users, User: u, PW: "secret1", Q: q, DB: def}, "designed", k%5 == 0)
+				}
+			}
+		}
+		for _, q := range []string{
+			`SELECT * FROM db1..cpu, cpu`, `SELECT * FROM cpu, db1..cpu`, `SELECT * FROM db1..a, b, db1..c`,
+			`SELECT * FROM (SELECT v FROM db1..cpu), mem`, `SELECT * FROM (SELECT v FROM db1..cpu, mem)`,
+			`SELECT * INTO out FROM db1..cpu`, `SELECT * INTO db1..out FROM cpu`, `SELECT * INTO out FROM db1..cpu, mem`,
+			`SHOW SERIES EXACT CARDINALITY FROM db1..cpu, mem`,
+			`CREATE CONTINUOUS QUERY cq ON db1 BEGIN SELECT mean(v) INTO db1..out FROM cpu GROUP BY time(1m) END; SELECT * FROM cpu`,
+		} {
+			for _, def := range []string{"db0", ""} {
+				runMixed(e, o, mixedD{Users: users, User: u, PW: "secret1", Q: q, DB: def}, "designed", true)
+				runMixed(e, o, mixedD{Users: users, User: u, PW: "secret1", Q: q, DB: def}, "designed", false)
+			}
+		}
+	}
 }
 
 func genAuthz(r *hx.Rand) authzD {
@@ -1490,6 +1658,7 @@ func main() {
 		return
 	}
 	designed(e, o)
+	designedMixed(e, o)
 	r := hx.NewRand(f.Seed)
 	races := 1
 	if f.Tier == "thorough" {
@@ -1504,8 +1673,10 @@ func main() {
 			runReqCase(e, o, genReqCase(r), "gen")
 		case k < 11:
 			runShow(e, o, genShow(r), "gen")
-		case k < 15:
+		case k < 13:
 			runAuthz(e, o, genAuthz(r), "gen")
+		case k < 15:
+			runMixed(e, o, genMixed(r), "gen", k == 14)
 		case k < 16:
 			us := genUsers(r)
 			name := userNames[r.Intn(len(userNames))]
